@@ -421,6 +421,33 @@ class Verifier(QuantMixin, LoopMixin, ExprMixin, CallMixin, StmtMixin, BuiltinsM
         v = self.ev(e.args[0], fr)
         return smt.simp(Val.str(smt.pystr(v)))
 
+    def prim_method_value(self, e, fr):
+        q = ast.literal_eval(e.args[0])
+        fi = self.index.find(q)
+        if fi is None:
+            self.unsupported(f'method_value: {q} not found')
+        return self.method_val(fi)
+
+    def prim_closure_func(self, e, fr):
+        so = self.static_of(self.ev(e.args[0], fr))
+        if isinstance(so, Closure):
+            return smt.mk_str(so.func.qualname)
+        if isinstance(so, FuncInfo):
+            return smt.mk_str(so.qualname)
+        if isinstance(so, BoundMethod):
+            f = so.func
+            return smt.mk_str(f.func.qualname if isinstance(f, Closure) else f.qualname)
+        self.unsupported('closure_func of a value that is not a statically known function')
+
+    def prim_closure_var(self, e, fr):
+        so = self.static_of(self.ev(e.args[0], fr))
+        name = ast.literal_eval(e.args[1])
+        if isinstance(so, Closure) and so.frame is not None:
+            v = so.frame.lookup(name)
+            if v is not None:
+                return v
+        self.unsupported(f'closure_var: no captured variable {name}')
+
     def prim_bound_method(self, e, fr):
         """bound_method(obj, 'name'): the bound method object obj.name (as a value that can be compared / called)"""
         obj = self.ev(e.args[0], fr)
@@ -1054,6 +1081,10 @@ class Verifier(QuantMixin, LoopMixin, ExprMixin, CallMixin, StmtMixin, BuiltinsM
                 self.oblige('requires@callee', f'{where}: {p} is {q}', env[p] == self.pin_val(q), site_props)
         for rq in ct.requires:
             self.oblige('requires@callee', f'{where}: {rq.name}', self.clause_holds(rq, env), site_props)
+        for rq in ct.extra.get('callsite_requires', []):
+            # protocol condition on the library's OWN call sites (proved there, never assumed in the callee's proof)
+            self.oblige('requires@callsite', f'{where}: {rq.name}', self.clause_holds(rq, env),
+                        tuple(dict.fromkeys(site_props + ct.props_of(rq.name))))
         saved_old = self.old
         self.old = self.st.snapshot()          # old() inside the callee's clauses = state before this call
         try:
@@ -1122,7 +1153,11 @@ class Verifier(QuantMixin, LoopMixin, ExprMixin, CallMixin, StmtMixin, BuiltinsM
             if ct.result_type:
                 # a typed result is an object produced by the callee: never one of the caller's own allocations
                 self.mark_external(res)
-                self.assume_type(res, ct.result_type)
+                if self.sub_depth > 0:
+                    self._add_axiom(self.type_formula(res, ct.result_type))     # typing of a new symbol: an axiom
+                    self.bound_ref(res)
+                else:
+                    self.assume_type(res, ct.result_type)
             else:
                 self.bound_ref(res)
                 self._add_axiom(res != smt.ABSENT)
@@ -1133,8 +1168,22 @@ class Verifier(QuantMixin, LoopMixin, ExprMixin, CallMixin, StmtMixin, BuiltinsM
         for cl in ct.ensures:
             if only is not None and cl.name not in only:
                 continue          # assuming fewer facts about a callee is always sound (and cheaper)
-            self.assume_checked(self.clause_holds(cl, env2))
+            self.assume_about_fresh(self.clause_holds(cl, env2))
         return res
+
+    def assume_about_fresh(self, f) -> None:
+        """a callee postcondition about a FRESH result symbol.  On a top-level path it is a plain assumption.  While
+        a clause / quantified predicate is being merged into one formula it must not become part of that formula
+        (its negation would then be satisfiable by 'violating' the callee contract): it is the axiom
+        guards-so-far => postcondition, a conservative extension since the symbol is new."""
+        if self.sub_depth > 0 and self.sub_bases:
+            b0 = self.sub_bases[-1]
+            g = [c for c, ax in zip(self.pc[b0:], self.pc_axiom[b0:]) if not ax]
+            self._add_axiom(z3.Implies(z3.And(*g), f) if g else f)
+            if not self.feasible():
+                raise Infeasible()
+            return
+        self.assume_checked(f)
 
     def alloc_havoc(self, K: ClassInfo):
         o = self.alloc(K)
